@@ -134,7 +134,7 @@ def run(c):
               "with / without preflight headers; observed at Cors::get_headers, at the full Server::process response (environment set before the first call in a fresh child per configuration) and on the real binary configured through "
               "environment / config file / command line. Class = (switch, origin relation, method, preflight?); non-trivial = near miss or OPTIONS.")
     rng = c.rng
-    ncfg = 120 if c.quick else 1500
+    ncfg = 120 if c.quick else 4000
     for cat in ("switch on", "switch off", "origin configured", "origin prefix", "origin suffix", "origin interior", "origin empty", "origin joined-list", "origin case-variant", "origin absent", "OPTIONS with preflight", "engine B responses"):
         c.need(cat)
     t = treegen.generate(rng.fork("tree"), depth=0, n_files=3, symlinks=False, plant_secrets=False, tag="c11")
